@@ -61,7 +61,7 @@ type prepared struct {
 	versioned bool
 	lock      bool
 	keys      []kexpect
-	acked     []acked // version ids acknowledged before the crash
+	acked     []acked           // version ids acknowledged before the crash
 	uploads   map[string]string // upload id -> key known to the model (must stay usable or be gone)
 	run       func(cl *s3c.Client) *s3c.Resp
 	isDirKey  bool
@@ -88,14 +88,14 @@ var quickOps = map[string]bool{"PUT-new": true, "PUT-overwrite": true, "PUT-over
 	"UPLOAD-PART-overwrite": true}
 
 type lane struct {
-	c    *ev.Ctx
-	cfg  cfg
-	st   *gw.Store
-	ctl  *gate.Ctl
-	ws   *wid.Set
-	nb   int
-	mu   sync.Mutex
-	pts  map[string]bool
+	c   *ev.Ctx
+	cfg cfg
+	st  *gw.Store
+	ctl *gate.Ctl
+	ws  *wid.Set
+	nb  int
+	mu  sync.Mutex
+	pts map[string]bool
 
 	controlFails map[string]bool
 }
